@@ -7,6 +7,7 @@ import DDS.Proofs.GenPagBase
 import DDS.Proofs.GenPagRead
 import DDS.Proofs.GenPagIter
 import DDS.Proofs.GenPagAdd
+import DDS.Proofs.GenPagCodec
 
 namespace DDS.GenPag
 end DDS.GenPag
